@@ -819,6 +819,9 @@ val simple_target_to_expr : node -> node
 
 val is_pat_target : node -> bool
 
+val hoist_target :
+  config -> node -> sp -> acc -> pstate -> (node * acc) * pstate
+
 val assign_transform : config -> node -> pstate -> node option * pstate
 
 val tpl_replace :
@@ -1012,17 +1015,11 @@ val hook_sites : node -> (char list * (n * n)) list
 
 val any_node : (node -> bool) -> node -> bool
 
-val kind_in : kind list -> node -> bool
+val static_path : node -> bool
 
-val instrumentable_kinds : kind list
+val call_apply_nonstatic : char list list -> node -> bool
 
-val compound_assign_target : node -> node option
-
-val k_compound_target_instrumentable : node -> bool
-
-val simple_member_target : node -> bool
-
-val k_compound_member_target : node -> bool
+val k_call_apply_nonstatic : char list list -> node -> bool
 
 val known_classes : char list list -> node -> char list list
 
@@ -1203,3 +1200,33 @@ val match_args : char list -> expected list -> node list -> char list list
 val apply_spread_args : node -> bool
 
 val shape_issues : char list -> node -> char list list
+
+val inert : node -> bool
+
+val static_path0 : node -> bool
+
+val arg_exprs : node list -> node list
+
+val plain_arg_exprs : node list -> node list
+
+type op_view =
+| OpOperands of node list
+| OpCall of node * node * node list
+| OpBare of node * node list
+| OpUnknown
+
+val view_op : node -> op_view
+
+val temps_of : char list -> node list -> char list list
+
+val dedup_str : char list list -> char list list -> char list list
+
+val list_str_eqb : char list list -> char list list -> bool
+
+val kept_before_effect :
+  char list -> (char list * node) list -> node list -> bool
+
+val seq_order_issues :
+  char list -> (char list * node) list -> node -> char list list
+
+val order_issues : char list -> node -> char list list
